@@ -71,19 +71,32 @@ theorem crates_withCrates (L : Lib2) (d : CDb) (h1 : d.tracks = L.crates.tracks)
   subst h1 h2
   rfl
 
+/-- calls of the crate package the composite hands through: the crate / membership API … -/
 def crateApi : COp → Bool
   | .createTrack | .removeTrack _ | .peAddBack _ _ _ _ | .peRemove _ _ | .peClear _ => false
+  | _ => true
+
+/-- … and, besides, an entry of another database being added to a list (`foreignEntry`) -/
+def crateMem : COp → Bool
+  | .createTrack | .removeTrack _ | .peRemove _ _ | .peClear _ => false
+  | .peAddBack _ t u _ => decide (u ≠ 0) && decide (0 < t)
   | _ => true
 
 theorem crateApi_apiOp {op : COp} (h : crateApi op = true) : EngineModel.Db.V2.apiOp op = true := by
   cases op <;> simp [crateApi] at h <;> rfl
 
+theorem crateMem_memOp {op : COp} (h : crateMem op = true) : EngineModel.Db.V2.memOp op = true := by
+  cases op <;> simp [crateMem] at h <;> simp [EngineModel.Db.V2.memOp, h]
+
+theorem crateMem_of_api {op : COp} (h : crateApi op = true) : crateMem op = true := by
+  cases op <;> simp [crateApi] at h <;> rfl
+
 /-- a call of the crate package through the composite acts on the view as the package's own step -/
-theorem crateCall_crates (L : Lib2) (op : COp) (h : crateApi op = true) :
+theorem crateCall_crates (L : Lib2) (op : COp) (h : crateMem op = true) :
     (crateCall op L).1.crates = (EngineModel.Db.V2.step L.crates op).1 := by
   unfold crateCall
-  obtain ⟨h1, h2⟩ := cstep_tracks L.crates op (by intro e; subst e; simp [crateApi] at h)
-    (by intro t e; subst e; simp [crateApi] at h)
+  obtain ⟨h1, h2⟩ := cstep_tracks L.crates op (by intro e; subst e; simp [crateMem] at h)
+    (by intro t e; subst e; simp [crateMem] at h)
   exact crates_withCrates L _ h1 h2
 
 theorem crateCall_rest (L : Lib2) (op : COp) :
@@ -137,15 +150,15 @@ theorem removeTrack_crates (s : Schema2) (t : Nat) (L : Lib2) :
 
 /-! ### the invariant -/
 
-structure LibInv (s : Schema2) (L : Lib2) : Prop where
+/-- everything but "every entry is the library's own": what is kept also when other software adds entries of
+other databases -/
+structure LibCore (s : Schema2) (L : Lib2) : Prop where
   /-- the track package's invariant on the real Track table (ids / paths keys, origin columns =
   (Information.uuid, id), derived columns, id range) -/
   tr : Inv L.tdb
-  /-- the crate package's invariants (chains, forest, names, memberships reference live playlists and live
-  tracks — live in the REAL Track table) -/
+  /-- the crate package's invariants (chains, forest, names; memberships of this database reference live
+  playlists and live tracks — live in the REAL Track table) -/
   cr : ∃ S, EngineModel.Db.V2.Inv S L.crates
-  /-- every entry carries the library's own database uuid -/
-  own : EngineModel.Db.V2.AllOwn L.crates
   /-- ChangeLog: no rows where it is a view; ids a key within the counter; rows reference live tracks or NULL -/
   logNone : hasChangeLog s = false → L.log = []
   logIds : (L.log.map (·.id)).Nodup ∧ ∀ r ∈ L.log, 1 ≤ r.id ∧ r.id ≤ L.logSeq
@@ -154,6 +167,10 @@ structure LibInv (s : Schema2) (L : Lib2) : Prop where
   art : 1 ∈ L.art ∧ ∀ t ∈ L.tdb.rows, t.row.albumArtId.toNat ∈ L.art
   prep : L.prep = []
   ver : L.ver = s.version
+
+structure LibInv (s : Schema2) (L : Lib2) : Prop extends LibCore s L where
+  /-- every entry carries the library's own database uuid -/
+  own : EngineModel.Db.V2.AllOwn L.crates
 
 theorem libInv_empty (s : Schema2) (uuid : Bytes) : LibInv s (Lib2.empty s uuid) where
   tr := inv_empty uuid
@@ -223,17 +240,16 @@ theorem logIds_append {L : Lib2} (h : (L.log.map (·.id)).Nodup ∧ ∀ r ∈ L.
 
 /-! ### preservation, call class by call class -/
 
-/-- a call of the crate package (crate creation / renaming / re-parenting / removal, add / remove / clear tracks) -/
-theorem libInv_crateCall {s : Schema2} {L : Lib2} (h : LibInv s L) (op : COp) (ha : crateApi op = true) :
-    LibInv s (crateCall op L).1 := by
+/-- a call of the crate package (crate creation / renaming / re-parenting / removal, add / remove / clear tracks;
+an entry of another database being added) -/
+theorem libCore_crateCall {s : Schema2} {L : Lib2} (h : LibCore s L) (op : COp) (ha : crateMem op = true) :
+    LibCore s (crateCall op L).1 := by
   obtain ⟨S, hS⟩ := h.cr
   have hv := crateCall_crates L op ha
   obtain ⟨e1, e2, e3, e4, e5, e6⟩ := crateCall_rest L op
-  have hapi := crateApi_apiOp ha
   exact {
     tr := by rw [e1]; exact h.tr
-    cr := ⟨_, by rw [hv]; exact EngineModel.Db.V2.inv_step hS op (EngineModel.Db.V2.memOp_of_apiOp hapi)⟩
-    own := by rw [hv]; exact EngineModel.Db.V2.allOwn_step hS h.own op hapi
+    cr := ⟨_, by rw [hv]; exact EngineModel.Db.V2.inv_step hS op (crateMem_memOp ha)⟩
     logNone := by rw [e2]; exact h.logNone
     logIds := by rw [e2, e3]; exact h.logIds
     logLive := by rw [e2, e1]; exact h.logLive
@@ -241,28 +257,35 @@ theorem libInv_crateCall {s : Schema2} {L : Lib2} (h : LibInv s L) (op : COp) (h
     prep := by rw [e5]; exact h.prep
     ver := by rw [e6]; exact h.ver }
 
+theorem libInv_crateCall {s : Schema2} {L : Lib2} (h : LibInv s L) (op : COp) (ha : crateApi op = true) :
+    LibInv s (crateCall op L).1 := by
+  obtain ⟨S, hS⟩ := h.cr
+  refine { toLibCore := libCore_crateCall h.toLibCore op (crateMem_of_api ha), own := ?_ }
+  rw [crateCall_crates L op (crateMem_of_api ha)]
+  exact EngineModel.Db.V2.allOwn_step hS h.own op (crateApi_apiOp ha)
+
 theorem withTdb_self (L : Lib2) : { L with tdb := L.tdb } = L := rfl
 
+/-- how a track call that returned normally shows in the crate view: not at all, or as the crate package's
+`createTrack` -/
+def ViewStep (L : Lib2) (tdb' : TDb) : Prop :=
+  ({ L with tdb := tdb' } : Lib2).crates = L.crates ∨
+  ({ L with tdb := tdb' } : Lib2).crates = (EngineModel.Db.V2.step L.crates .createTrack).1
+
 /-- the library after a track call that returned normally with `n` firings of the ChangeLog trigger -/
-theorem libInv_track_ok {s : Schema2} {L : Lib2} (h : LibInv s L) (tdb' : TDb) (hI' : Inv tdb')
-    (subject n : Nat)
-    (hview : ({ L with tdb := tdb' } : Lib2).crates = L.crates ∨
-      ({ L with tdb := tdb' } : Lib2).crates = (EngineModel.Db.V2.step L.crates .createTrack).1)
+theorem libCore_track_ok {s : Schema2} {L : Lib2} (h : LibCore s L) (tdb' : TDb) (hI' : Inv tdb')
+    (subject n : Nat) (hview : ViewStep L tdb')
     (hids : ∀ i ∈ L.tdb.rows.map (·.id), i ∈ tdb'.rows.map (·.id))
     (hsub : subject ∈ tdb'.rows.map (·.id))
     (hart : ∀ t ∈ tdb'.rows, t.row.albumArtId.toNat ∈ L.art) :
-    LibInv s (if hasChangeLog s then ({ L with tdb := tdb' } : Lib2).logAppend subject n else { L with tdb := tdb' }) := by
+    LibCore s (if hasChangeLog s then ({ L with tdb := tdb' } : Lib2).logAppend subject n else { L with tdb := tdb' }) := by
   obtain ⟨S, hS⟩ := h.cr
-  have base : LibInv s ({ L with tdb := tdb' } : Lib2) := {
+  have base : LibCore s ({ L with tdb := tdb' } : Lib2) := {
     tr := hI'
     cr := by
       rcases hview with e | e
       · exact ⟨S, by rw [e]; exact hS⟩
       · exact ⟨_, by rw [e]; exact EngineModel.Db.V2.inv_step hS .createTrack rfl⟩
-    own := by
-      rcases hview with e | e
-      · rw [e]; exact h.own
-      · rw [e]; exact EngineModel.Db.V2.allOwn_step hS h.own .createTrack rfl
     logNone := h.logNone
     logIds := h.logIds
     logLive := fun r hr t ht => hids t (h.logLive r hr t ht)
@@ -277,7 +300,6 @@ theorem libInv_track_ok {s : Schema2} {L : Lib2} (h : LibInv s L) (tdb' : TDb) (
     exact {
       tr := by rw [a]; exact hI'
       cr := by rw [logAppend_crates]; exact base.cr
-      own := by rw [logAppend_crates]; exact base.own
       logNone := fun hn => by rw [hc] at hn; cases hn
       logIds := logIds_append base.logIds subject n
       logLive := by
@@ -290,6 +312,18 @@ theorem libInv_track_ok {s : Schema2} {L : Lib2} (h : LibInv s L) (tdb' : TDb) (
       art := by rw [f, a]; exact base.art
       prep := by rw [g]; exact base.prep
       ver := by rw [hh]; exact base.ver }
+
+theorem own_track_ok {s : Schema2} {L : Lib2} (h : LibInv s L) (tdb' : TDb) (subject n : Nat) (hview : ViewStep L tdb') :
+    EngineModel.Db.V2.AllOwn
+      (if hasChangeLog s then ({ L with tdb := tdb' } : Lib2).logAppend subject n else { L with tdb := tdb' }).crates := by
+  obtain ⟨S, hS⟩ := h.cr
+  have base : EngineModel.Db.V2.AllOwn ({ L with tdb := tdb' } : Lib2).crates := by
+    rcases hview with e | e
+    · rw [e]; exact h.own
+    · rw [e]; exact EngineModel.Db.V2.allOwn_step hS h.own .createTrack rfl
+  cases hasChangeLog s
+  · simpa using base
+  · simp only [if_true]; rw [logAppend_crates]; exact base
 
 theorem created_crates (L : Lib2) (row : Row) :
     ({ L with tdb := { L.tdb with rows := L.tdb.rows ++ [L.tdb.created row], seq := L.tdb.seq + 1 } } : Lib2).crates
@@ -313,9 +347,14 @@ theorem mem_rep_art {db : TDb} {t : TRow} {row : Row} {art : List Nat} (h : ∀ 
   · rw [h1.1]; exact hr
   · exact h x h1.1
 
-/-- create_track / update / any setter -/
-theorem libInv_trackCall {s : Schema2} {L : Lib2} (h : LibInv s L) (ops : FOps) (op : TOp)
-    (hop : ∀ id, op ≠ .remove id) : LibInv s (trackCall ops s op L).1 := by
+/-- create_track / update / any setter: `P` is kept whenever it is kept by "nothing happened" and by the three
+shapes of a successful call -/
+theorem trackCall_shape {s : Schema2} {L : Lib2} (h : LibCore s L) (ops : FOps) (op : TOp)
+    (hop : ∀ id, op ≠ .remove id) (P : Lib2 → Prop) (hP : P L)
+    (hok : ∀ tdb' subject n, TracksV2.Inv tdb' → ViewStep L tdb' → (∀ i ∈ L.tdb.rows.map (·.id), i ∈ tdb'.rows.map (·.id)) →
+      subject ∈ tdb'.rows.map (·.id) → (∀ t ∈ tdb'.rows, t.row.albumArtId.toNat ∈ L.art) →
+      P (if hasChangeLog s then ({ L with tdb := tdb' } : Lib2).logAppend subject n else { L with tdb := tdb' })) :
+    P (trackCall ops s op L).1 := by
   unfold trackCall
   simp only []
   have hI' := inv_step ops (toT s) op h.tr
@@ -328,11 +367,11 @@ theorem libInv_trackCall {s : Schema2} {L : Lib2} (h : LibInv s L) (ops : FOps) 
   | failed _ _ hf =>
     cases res with
     | ok v => exact absurd rfl (hf v)
-    | throw e => exact h
-    | ub u => exact h
+    | throw e => exact hP
+    | ub u => exact hP
   | created x row hw =>
     simp only []
-    refine libInv_track_ok h _ hI' _ _ (Or.inr (created_crates L row)) ?_ ?_ ?_
+    refine hok _ _ _ hI' (Or.inr (created_crates L row)) ?_ ?_ ?_
     · intro i hi; simp only [List.map_append]; exact List.mem_append_left _ hi
     · simp [TOp.subject, TDb.created]
     · intro t ht
@@ -341,14 +380,14 @@ theorem libInv_trackCall {s : Schema2} {L : Lib2} (h : LibInv s L) (ops : FOps) 
       · simp only [List.mem_singleton] at ht; rw [ht]; simp only [TDb.created]; rw [writeStore_art ops _ x row hw]; exact h.art.1
   | updated id x t row hf hw =>
     simp only []
-    refine libInv_track_ok h _ hI' _ _ (Or.inl (rep_crates L t row)) ?_ ?_ ?_
+    refine hok _ _ _ hI' (Or.inl (rep_crates L t row)) ?_ ?_ ?_
     · intro i hi; rw [rep_ids]; exact hi
     · rw [rep_ids]; simp only [TOp.subject]
       exact (find_isSome_iff L.tdb id).mp (by rw [hf]; rfl)
     · exact mem_rep_art h.art.2 (by rw [writeStore_art ops _ x row hw]; exact h.art.1)
   | set id σ t row hf ha =>
     simp only []
-    refine libInv_track_ok h _ hI' _ _ (Or.inl (rep_crates L t row)) ?_ ?_ ?_
+    refine hok _ _ _ hI' (Or.inl (rep_crates L t row)) ?_ ?_ ?_
     · intro i hi; rw [rep_ids]; exact hi
     · rw [rep_ids]; simp only [TOp.subject]
       exact (find_isSome_iff L.tdb id).mp (by rw [hf]; rfl)
@@ -357,18 +396,27 @@ theorem libInv_trackCall {s : Schema2} {L : Lib2} (h : LibInv s L) (ops : FOps) 
       exact h.art.2 t (find_mem hf).1
   | removed id t hf => exact absurd rfl (hop id)
 
+theorem libCore_trackCall {s : Schema2} {L : Lib2} (h : LibCore s L) (ops : FOps) (op : TOp)
+    (hop : ∀ id, op ≠ .remove id) : LibCore s (trackCall ops s op L).1 :=
+  trackCall_shape h ops op hop (LibCore s) h fun tdb' subject n hI' hv hids hsub hart =>
+    libCore_track_ok h tdb' hI' subject n hv hids hsub hart
+
+theorem libInv_trackCall {s : Schema2} {L : Lib2} (h : LibInv s L) (ops : FOps) (op : TOp)
+    (hop : ∀ id, op ≠ .remove id) : LibInv s (trackCall ops s op L).1 :=
+  trackCall_shape h.toLibCore ops op hop (LibInv s) h fun tdb' subject n hI' hv hids hsub hart =>
+    { toLibCore := libCore_track_ok h.toLibCore tdb' hI' subject n hv hids hsub hart
+      own := own_track_ok h tdb' subject n hv }
+
 /-- database::remove_track -/
-theorem libInv_removeTrack {s : Schema2} {L : Lib2} (h : LibInv s L) (t : Nat) : LibInv s (removeTrack s t L).1 := by
+theorem libCore_removeTrack {s : Schema2} {L : Lib2} (h : LibCore s L) (t : Nat) : LibCore s (removeTrack s t L).1 := by
   obtain ⟨S, hS⟩ := h.cr
   have hv := removeTrack_crates s t L
   have hcr : ∃ S', EngineModel.Db.V2.Inv S' (removeTrack s t L).1.crates :=
     ⟨_, by rw [hv]; exact EngineModel.Db.V2.inv_step hS (.removeTrack (t : Int)) rfl⟩
-  have hown : EngineModel.Db.V2.AllOwn (removeTrack s t L).1.crates := by
-    rw [hv]; exact EngineModel.Db.V2.allOwn_step hS h.own (.removeTrack (t : Int)) rfl
-  rw [removeTrack_eq] at hcr hown ⊢
+  rw [removeTrack_eq] at hcr ⊢
   by_cases hz : (L.tdb.rows.filter fun e => e.id == t).length = 0
   · simp only [hz, if_true]; exact h
-  · simp only [hz, if_false] at hcr hown ⊢
+  · simp only [hz, if_false] at hcr ⊢
     have hsub : ∀ x ∈ (removed s t L).tdb.rows, x ∈ L.tdb.rows := fun x hx => (List.mem_filter.mp hx).1
     have hlog : ∀ r ∈ (removed s t L).log, (r.track = none ∨ ∃ r0 ∈ L.log, r0.id = r.id ∧ r0.track = r.track ∧ r.track ≠ some t) := by
       intro r hr
@@ -392,7 +440,6 @@ theorem libInv_removeTrack {s : Schema2} {L : Lib2} (h : LibInv s L) (t : Nat) :
     exact {
       tr := inv_filter h.tr _
       cr := hcr
-      own := hown
       logNone := fun hn => by simp only [removed, hn, Bool.false_eq_true, if_false]; exact h.logNone hn
       logIds := by
         refine ⟨by rw [hlogids]; exact h.logIds.1, ?_⟩
@@ -416,5 +463,11 @@ theorem libInv_removeTrack {s : Schema2} {L : Lib2} (h : LibInv s L) (t : Nat) :
       art := ⟨h.art.1, fun x hx => h.art.2 x (hsub x hx)⟩
       prep := h.prep
       ver := h.ver }
+
+theorem libInv_removeTrack {s : Schema2} {L : Lib2} (h : LibInv s L) (t : Nat) : LibInv s (removeTrack s t L).1 := by
+  obtain ⟨S, hS⟩ := h.cr
+  refine { toLibCore := libCore_removeTrack h.toLibCore t, own := ?_ }
+  rw [removeTrack_crates s t L]
+  exact EngineModel.Db.V2.allOwn_step hS h.own (.removeTrack (t : Int)) rfl
 
 end EngineModel.Lib.V2
